@@ -719,7 +719,10 @@ fn writer_scenario(scenario: u32, c: &mut Choices, o: &mut Outcome) {
     let n = c.usize_in(0, 60);
     c.bytes(n)
   };
-  o.sample = format!("scenario={scenario} queue_capacity={cap} writes={nwrites} ack_early={ack_early} schedule={sched_bytes:?}");
+  // (drawn last) another task, with another waker, has used this DataWriter before: wake-ups
+  // must go to the task that is waiting now, not to whoever registered first
+  let other_task_first = scenario == 6 && c.chance(128);
+  o.sample = format!("scenario={scenario} queue_capacity={cap} writes={nwrites} ack_early={ack_early} other_task_first={other_task_first} schedule={sched_bytes:?}");
   o.digest = fnv(o.sample.as_bytes());
   let sched = Sched::new(&sched_bytes, CONSUMER);
   let (tx, rx) = mpsc::channel::<(WriterEnds, GUID)>();
@@ -825,6 +828,29 @@ fn writer_scenario(scenario: u32, c: &mut Choices, o: &mut Outcome) {
   });
   let waker: Waker = fw.clone().into();
   let mut violation: Option<(String, String, String)> = None;
+
+  if other_task_first {
+    // one write by another task; the queue is empty, so it completes at its first poll
+    let other = Arc::new(FlagWaker {
+      flag: AtomicBool::new(false),
+      count: AtomicUsize::new(0),
+    });
+    let other_waker: Waker = other.clone().into();
+    let mut cx = Context::from_waker(&other_waker);
+    let mut f = Box::pin(dw.async_write(
+      Msg {
+        id: 1000,
+        name: "other".into(),
+        v: 2,
+      },
+      None,
+    ));
+    match f.as_mut().poll(&mut cx) {
+      Poll::Ready(_) => o.label("another-task-wrote-first"),
+      Poll::Pending => o.label("another-task-left-pending"),
+    }
+    drop(f);
+  }
 
   // the application task
   let task = async {
